@@ -363,3 +363,39 @@ def r5(cx):
                          "back once the node cache is cold (after close + reopen every entry whose spilled part ends on a page boundary, and every multi-page chain, is lost)" % (rmax, wmax))
                 cx.check(rmax + (H if H else 13) <= PAGE, "the accepted length keeps the payload inside the page", "overflow-len-too-lax", cm.where())
     cx.floor("length validations in OverflowPage::deserialize", n, 1)
+
+
+@rule("C18", "C18.R6", "a separator key and its overflow pointer are replaced together")
+def r6(cx):
+    """Keys that do not fit an internal node keep their tail in an overflow chain addressed by `key_overflows[i]`; writing the
+    node re-uses a non-zero pointer as it is.  Whoever replaces `keys[i]` of an internal node must therefore also replace or
+    reset `key_overflows[i]` -- otherwise the node is persisted as `new key's prefix + old key's tail` (lookups after a
+    reopen descend into the wrong child) or the old chain leaks.  Sibling cross-check: the internal-node redistributions do
+    it, the leaf redistributions must too."""
+    f = cx.f
+    n = 0
+    for b in f.scan_bodies():
+        if not b.file.endswith("bplustree/tree.rs") or b.kind not in ("method", "fn"):
+            continue
+        reps = []
+        for c in b.calls:
+            if c.bb in b.live and c.primary.endswith("IndexMut<I>>::index_mut") or (c.bb in b.live and c.primary.split("::")[-1] == "index_mut"):
+                o = origin_of_operand(b, c.args[0])
+                if any(own.endswith("InternalNode") and nm == "keys" for own, nm in o.fields):
+                    # an assignment through the returned reference
+                    if any(len(lhs) >= 2 and lhs[1] == "*" and c in origin_of_operand(b, ["c", [lhs[0]]]).calls for i, j, lhs, rv, line in b.assigns() if i in b.live):
+                        reps.append(c)
+        if not reps:
+            continue
+        sets = [c for c in b.calls if c.bb in b.live and (c.names & {"InternalNode::set_overflow_at"} or
+                (c.primary.split("::")[-1] == "index_mut" and any(own.endswith("InternalNode") and nm == "key_overflows" for own, nm in origin_of_operand(b, c.args[0]).fields)))]
+        oks = [x for x, k in exits(b) if k in ("ok", "tail")] or b.rets
+        for c in reps:
+            n += 1
+            T = {x.bb for x in sets}
+            r = b.reachable_after([c.bb], avoid=T)
+            bad = [x for x in oks if x in r and x not in T]
+            cx.check(not bad, "`%s`: replacing a separator also replaces its overflow pointer" % b.id, "separator-overflow-stale|%s" % b.name, c.where(),
+                     "`%s` overwrites `keys[i]` of an internal node and can return without touching `key_overflows[i]`: the node is written with the new key's on-page "
+                     "prefix and the OLD key's overflow chain -- after close + reopen lookups compare against a key nobody inserted and entries are not found" % b.id)
+    cx.floor("separator replacements in internal nodes", n, 4)
